@@ -219,7 +219,7 @@ def main():
 
         _phase("F classify + control")
         # ---------------------------------------------------------------- B
-        ntrees, depth, nfl = (6000, 5, 8) if thorough else (1200, 4, 6)
+        ntrees, depth, nfl = (20000, 5, 8) if thorough else (1200, 4, 6)
         p = subprocess.run([vh, "cond-drive", "-seed", str(run.seed), "-n", str(ntrees), "-depth", str(depth), "-flows", str(nfl)],
                            input=json.dumps({"flows": universe}) + "\n", stdout=subprocess.PIPE, stderr=subprocess.PIPE, text=True)
         if p.returncode != 0:
